@@ -98,6 +98,11 @@ def r1_transfer_loops(repo=None):
             continue
         # no filter / early exit / conditional transfer
         extra = [x for x in ast.walk(inner) if isinstance(x, (ast.Continue, ast.Break, ast.Return))]
+        # ... except the skip of a file whose destination path has been transferred already: `if D in seen: continue; seen.add(D)`
+        # with `seen` an initially empty collection that only ever receives the destination paths, D the path the transfer uses
+        dedupe = _find_dedupe(f, outer, inner, tc, env)
+        if dedupe is not None:
+            extra = [x for x in extra if x is not dedupe.body[0]]
         cond = [a_ for a_ in _anc(fv, tc) if isinstance(a_, (ast.If, ast.Try, ast.While)) and any(a_ is x for x in ast.walk(inner))]
         src_iter = outer is not None and norm(ast.unparse(pyutil.dealias(outer.iter, env))) == "args.srcdests"
         srcname = norm(ast.unparse(inner.iter.args[0])) if inner.iter.args else None
@@ -139,6 +144,54 @@ def r1_transfer_loops(repo=None):
                         "files identically", line=m.fn(odd[0] if odd else "_run_cp").lineno)
     r.guard(4)
     return r
+
+
+def _find_dedupe(f, outer, inner, tc, env):
+    """the statement `if D in seen: continue` (followed by `seen.add(D)`) of the per-file loop, D being the destination path the
+    transfer uses and `seen` an initially empty collection created outside the (src, dest) loop that receives nothing else"""
+    dpath = norm(ast.unparse(pyutil.dealias(tc.args[1], env)))
+    dedupe = None
+    for st_i, st_ in enumerate(inner.body):
+        if isinstance(st_, ast.If) and not st_.orelse and len(st_.body) == 1 and isinstance(st_.body[0], ast.Continue) \
+                and isinstance(st_.test, ast.Compare) and len(st_.test.ops) == 1 and isinstance(st_.test.ops[0], ast.In) \
+                and isinstance(st_.test.comparators[0], ast.Name) \
+                and norm(ast.unparse(pyutil.dealias(st_.test.left, env))) == dpath:
+            S = st_.test.comparators[0].id
+            inits = [a_ for a_ in ast.walk(f) if isinstance(a_, ast.Assign) and any(isinstance(t_, ast.Name) and t_.id == S for t_ in a_.targets)]
+            empty = len(inits) == 1 and ((isinstance(inits[0].value, ast.Call) and pyfront.call_name(inits[0].value) in ("set", "list") and not inits[0].value.args)
+                                         or (isinstance(inits[0].value, (ast.List, ast.Set)) and not inits[0].value.elts)) \
+                and not any(inits[0] is y for y in ast.walk(outer))
+            nxt = inner.body[st_i + 1] if st_i + 1 < len(inner.body) else None
+            adds = isinstance(nxt, ast.Expr) and isinstance(nxt.value, ast.Call) and isinstance(nxt.value.func, ast.Attribute) \
+                and nxt.value.func.attr in ("add", "append") and isinstance(nxt.value.func.value, ast.Name) and nxt.value.func.value.id == S \
+                and len(nxt.value.args) == 1 and norm(ast.unparse(pyutil.dealias(nxt.value.args[0], env))) == dpath
+            other_uses = [y for y in ast.walk(f) if isinstance(y, ast.Name) and y.id == S and isinstance(y.ctx, ast.Load)
+                          and not any(y is z for z in ast.walk(st_)) and not (nxt is not None and any(y is z for z in ast.walk(nxt)))]
+            if empty and adds and not other_uses:
+                dedupe = st_
+    return dedupe
+
+
+def files_deduped(m):
+    """{run function: bool} - the per-file loop of cp / ln / mv skips a destination path that was transferred already"""
+    out = {}
+    for name in RUN_PRIMS:
+        fv = m.flat(name)
+        f = fv.fn()
+        env = pyutil.single_alias_env(f)
+        inners = [lp for lp in ast.walk(f) if isinstance(lp, ast.For) and isinstance(lp.iter, ast.Call) and pyfront.call_name(lp.iter) == "ilsdrf"]
+        ok = False
+        if len(inners) == 1:
+            inner = inners[0]
+            outer = _outer_loop(fv, inner)
+            srcvar = inner.target.id if isinstance(inner.target, ast.Name) else None
+            tcalls = [c for c in ast.walk(inner) if isinstance(c, ast.Call) and c.args and isinstance(c.args[0], ast.Name)
+                      and getattr(pyutil.dealias(c.args[0], env), "id", None) == srcvar and len(c.args) == 2
+                      and pyfront.call_name(c) not in ("os.path.relpath", "os.path.join")]
+            if outer is not None and len(tcalls) == 1:
+                ok = _find_dedupe(f, outer, inner, tcalls[0], env) is not None
+        out[name] = ok
+    return out
 
 
 def _loop_shape(outer, env, callee):
@@ -581,6 +634,7 @@ def r4_channel_pairs(repo=None):
             par[ch] = n
     susp = []
     allowed = []
+    pruned_below = []
     for n in ast.walk(f):
         if isinstance(n, ast.comprehension) and n.ifs:
             susp.append(n.ifs[0])
@@ -601,6 +655,15 @@ def r4_channel_pairs(repo=None):
             if not (skips or cond_append):
                 continue
             if cond_append and not skips:
+                # `if P not in kept: kept.append(P)`: only a pair equal to one already kept is skipped
+                t_ = x.test
+                apps_ = [y for st in x.body for y in ast.walk(st) if isinstance(y, ast.Call) and isinstance(y.func, ast.Attribute)
+                         and y.func.attr in ("append", "add")]
+                if isinstance(t_, ast.Compare) and len(t_.ops) == 1 and isinstance(t_.ops[0], ast.NotIn) and len(apps_) == 1 and not x.orelse \
+                        and len(apps_[0].args) == 1 and norm(ast.unparse(apps_[0].args[0])) == norm(ast.unparse(t_.left)) \
+                        and norm(ast.unparse(apps_[0].func.value)) == norm(ast.unparse(t_.comparators[0])):
+                    allowed.append((x, "a pair equal to one already kept is skipped (`%s`)" % norm(ast.unparse(t_))[:60]))
+                    continue
                 susp.append(x)
                 continue
             # `if <cond>: continue` -- the pair is dropped when cond holds; cond is a disjunction of allowed reasons
@@ -688,6 +751,9 @@ def r4_channel_pairs(repo=None):
                 has_rec = any(norm(ast.unparse(c)) == "args.recursive" for c in conj)
                 rest = [c for c in conj if norm(ast.unparse(c)) != "args.recursive"]
                 below = is_below_test(rest[0]) if len(rest) == 1 else None
+                if below:
+                    pruned_below.append((x, below, has_rec))
+                    continue
                 if has_rec and below:
                     ok_terms.append("with recursion on, a channel below another requested channel (component-wise test %s) is "
                                     "transferred along with that one" % below)
@@ -709,8 +775,23 @@ def r4_channel_pairs(repo=None):
         plain = ["os.path.join(args.src, %s)" % v.id, "os.path.join(args.dest, %s)" % v.id]
         if texts == plain or texts == ["os.path.normpath(%s)" % t_ for t_ in plain]:
             pair_ok = True
+    # the same pair built statement by statement: `for ch in args.chs: pair = (join(args.src, ch), join(args.dest, ch))`
+    for lp_ in [x for x in ast.walk(f) if isinstance(x, ast.For) and isinstance(x.target, ast.Name) and norm(ast.unparse(x.iter)) == "args.chs"]:
+        for a_ in ast.walk(lp_):
+            if isinstance(a_, ast.Assign) and isinstance(a_.value, ast.Tuple) and len(a_.value.elts) == 2:
+                texts = [norm(ast.unparse(e)) for e in a_.value.elts]
+                plain = ["os.path.join(args.src, %s)" % lp_.target.id, "os.path.join(args.dest, %s)" % lp_.target.id]
+                if texts == plain or texts == ["os.path.normpath(%s)" % t_ for t_ in plain]:
+                    pair_ok = True
     fallback = [n for n in ast.walk(f) if isinstance(n, ast.Assign) and norm(ast.unparse(n.value)) == "[(args.src, args.dest)]"]
-    if susp:
+    if pruned_below:
+        x, below, has_rec = pruned_below[0]
+        r.violation(m.rel, q, norm(ast.unparse(x))[:100], "a requested channel that lies below another requested channel is dropped from "
+                    "the list%s: the listing of the other channel need not cover it - a timestamped sub-directory given on its own gets "
+                    "its own forward-fill file, a symlinked directory is not walked into - so fewer files are transferred than the "
+                    "equivalent listings select; overlap has to be resolved per file (by destination path), not per channel" % (
+                        " when recursing" if has_rec else ""), line=x.lineno)
+    elif susp:
         bad = susp[0]
         r.violation(m.rel, q, norm(ast.unparse(bad))[:100], "the list of requested channels is filtered in a way that can lose a channel: "
                     "only a repeated pair, or - with recursion on - a channel lying (component-wise) below another requested channel may "
@@ -721,8 +802,12 @@ def r4_channel_pairs(repo=None):
              "per channel, or (src, dest) when no channel was given")
         for x, why in allowed:
             r.ok("%s:%s %s `if %s: continue`" % (m.rel, x.lineno, q, norm(ast.unparse(x.test))[:70]), why)
-        if not allowed:
-            r.violation(m.rel, q, "args.srcdests built from every channel entry",
+        dd = files_deduped(m)
+        if all(dd.values()):
+            r.ok("%s %s" % (m.rel, "/".join(sorted(dd))), "overlapping channel entries are resolved per file: a destination path that was "
+                 "transferred already is skipped")
+        else:
+            r.violation(m.rel, q, "args.srcdests built from every channel entry; no per-file skip in %s" % ", ".join(sorted(k for k, v in dd.items() if not v)),
                         "repeated or nested channel entries (`-c ch0,ch0/metadata`, recursion is the default) are transferred entry by "
                         "entry: a file below two requested channels is transferred twice - `ln` fails with FileExistsError on the second "
                         "link and never reaches the remaining channels, `mv` lists a source it has already changed", line=f.lineno)
